@@ -21,8 +21,8 @@ class C11(Prop):
         "agent-encrypted replies must be delivered with exact content. non-trivial = >= 2 encrypted requests with different plaintext lengths "
         "mod block size or after an abnormal call; distinct = abstract trace + multiset of (plaintext length mod 16)"
     )
-    quick_runs = 500
-    thorough_runs = 8000
+    quick_runs = 4000
+    thorough_runs = 50000
 
     def families(self, tier):
         return [("history", 8), ("silent-streak", 1)]
